@@ -49,6 +49,9 @@ RtVariants(c) ==
     {[cls |-> c, kind |-> "empty", which |-> "", n |-> 0]}
     \cup {[cls |-> c, kind |-> "attr", which |-> Attrs(c)[k].member, n |-> 1] : k \in 1..Len(Attrs(c))}
     \cup {[cls |-> c, kind |-> "allattrs", which |-> "", n |-> Len(Attrs(c))]}
+    \* every attribute in another lexical form of the same value (boolean 1, integer 007, dateTime with fraction ...):
+    \* what was written is what is read, the classes do not normalise
+    \cup {[cls |-> c, kind |-> "allattrs_altlex", which |-> "", n |-> Len(Attrs(c))]}
     \* every optional attribute present with the empty string as value (present-but-empty is not absent)
     \cup {[cls |-> c, kind |-> "optattrs_empty", which |-> "", n |-> Len(Attrs(c))]}
     \cup {[cls |-> c, kind |-> "child", which |-> Children(c)[k].member, n |-> n] :
